@@ -20,7 +20,14 @@ func (r *ReadFS) OpenFile(path string, flag experimentalsys.Oflag, perm fs.FileM
 			return nil, experimentalsys.EISDIR
 		}
 		return nil, experimentalsys.ENOSYS
-	default: // sys.O_RDONLY (integer zero) so we are ok!
+	case experimentalsys.O_RDONLY:
+		// A read-only access mode does not stop open(2) from creating or
+		// truncating a file, so these flags cannot reach the wrapped FS.
+		if flag&(experimentalsys.O_CREAT|experimentalsys.O_TRUNC) != 0 {
+			return nil, experimentalsys.EROFS
+		}
+	default: // both access mode bits set: not a read-only mode.
+		return nil, experimentalsys.EROFS
 	}
 
 	f, errno := r.FS.OpenFile(path, flag, perm)
